@@ -4,7 +4,7 @@
 import json, os, shutil, sys, tempfile
 sys.path.insert(0, os.path.dirname(os.path.abspath(__file__)))
 from seeded import Worktree, sh, PY, V
-R = os.path.join(V, 'refactors')
+R = os.path.join(V, 'refactors', os.environ.get('REFAC_BATCH', 'batch1'))
 args = [a for a in sys.argv[2:] if not a.startswith('--')]
 checks = ['C%02d' % i for i in range(1, 20)]
 for a in sys.argv:
